@@ -25,7 +25,41 @@ INVS = ['NoFault', 'NoForeignSignal', 'RunLive', 'CascadeShape', 'MutualExclusio
         'LockFreeWhenUnused']
 
 
+REFINE = ['contend', 'until', 'cancel', 'close']
+
+
+def refinement(check):
+    """design level: USim refines the abstract lock LockAbs (TLC), whose invariant Apalache proves inductive"""
+    import core
+    import os
+    import subprocess
+    import tempfile
+    import shutil
+    import time
+    import tlc
+    for label, consts, _ in CONFIGS['quick']:
+        if label in REFINE:
+            check.model_check('refine_' + label, 'USimRef', 'Spec', consts, ['LockInv'],
+                              properties=['LockRefines1', 'LockFifo1', 'LockOrder1'], coverage=False)
+    out = tempfile.mkdtemp(prefix='usimverif-apa-')
+    try:
+        for name, args in (('base', ['--init=Init', '--inv=IndInv', '--length=0']),
+                           ('step', ['--init=IndInit', '--inv=IndInv', '--length=1'])):
+            t0 = time.time()
+            p = subprocess.run(['apalache-mc', 'check', '--out-dir=' + out] + args + ['MC_LockAbs.tla'], cwd=tlc.SPEC_DIR,
+                               stdout=subprocess.PIPE, stderr=subprocess.STDOUT, text=True, timeout=1200)
+            ok = p.returncode == 0 and 'The outcome is: NoError' in p.stdout
+            check.tlc_runs.append({'label': 'apalache_inductive_' + name, 'module': 'MC_LockAbs', 'tool': 'apalache-mc',
+                                   'args': args, 'outcome': 'NoError' if ok else 'Error', 'wall_s': round(time.time() - t0, 1)})
+            if not ok:
+                raise core.MachineryError('Apalache: IndInv of LockAbs is not inductive (%s): %s' % (name, p.stdout[-600:]))
+    finally:
+        shutil.rmtree(out, ignore_errors=True)
+        shutil.rmtree(os.path.join(tlc.SPEC_DIR, '_apalache-out'), ignore_errors=True)
+
+
 def run(check):
+    refinement(check)
     runs = []
     for label, consts, limit in CONFIGS[check.tier]:
         ws = check.witnesses(label, consts, emit='EmitOps', invariants=INVS, coverage=check.tier == 'thorough', limit=limit)
